@@ -11,6 +11,10 @@ def call(mod, pb):
     return mod.solve_heyawake(pb["h"], pb["w"], rooms, pb["clues"])
 
 
+def ncand(pb):
+    return 2 ** (pb['h'] * pb['w'])
+
+
 def encode(pb):
     return [[pb["h"], pb["w"]], L.flat(L.region_ids(pb["h"], pb["w"], pb["rooms"])), pb["clues"]]
 
